@@ -302,3 +302,112 @@ def rebin_float_claims(x, d):
             a = np.moveaxis(out, 0, k)
             known = np.moveaxis(ok, 0, k)
     return a, known
+
+
+# --------------------------------------------------------------------------- long arrays (vectorised references)
+def _axis_tables(d0, d, sample):
+    """int64 index arithmetic for one axis: (kind, j, j_next, rem) with kind 'copy' | 'lerp' | 'mean'"""
+    i = np.arange(d, dtype=np.int64)
+    if d == d0:
+        return 'copy', i, i, np.zeros(d, dtype=np.int64)
+    if d > d0:
+        assert d % d0 == 0
+        num = i * np.int64(d0)                       # < 2**63 for every size used here
+        j = num // np.int64(d)
+        rem = num - j * np.int64(d)
+        if sample:
+            return 'copy', j, j, np.zeros(d, dtype=np.int64)
+        tail = j >= d0 - 1                           # at or beyond the last input pixel: repeat it
+        jn = np.where(tail, j, j + 1)
+        rem = np.where(tail, 0, rem)
+        return 'lerp', j, jn, rem
+    assert d0 % d == 0
+    f = d0 // d
+    if sample:
+        return 'copy', i * f, i * f, np.zeros(d, dtype=np.int64)
+    return 'mean', i * f, i * f + f, np.zeros(d, dtype=np.int64)
+
+
+def rebin_float_ref_fast(x, d, sample):
+    """same definition as rebin_float_ref, numpy-vectorised along the axis (for long axes)"""
+    a = np.asarray(x, dtype=np.longdouble)
+    for k in range(a.ndim):
+        kind, j, jn, rem = _axis_tables(a.shape[k], d[k], sample)
+        a = np.moveaxis(a, k, 0)
+        if kind == 'copy':
+            out = a[j]
+        elif kind == 'lerp':
+            t = (rem.astype(np.longdouble) / np.longdouble(d[k])).reshape((-1,) + (1,) * (a.ndim - 1))
+            out = a[j] + t * (a[jn] - a[j])
+        else:
+            f = int(jn[0] - j[0])
+            out = a.reshape((len(j), f) + a.shape[1:]).sum(axis=1) / np.longdouble(f)
+        a = np.moveaxis(out, 0, k)
+    return a
+
+
+def rebin_int_bounds_fast(x, d):
+    """same rule as rebin_int_bounds (within 1, inclusive, of the exact rational value per axis), in int64"""
+    lo = np.asarray(x).astype(np.int64)
+    hi = lo.copy()
+    for k in range(lo.ndim):
+        kind, j, jn, rem = _axis_tables(lo.shape[k], d[k], False)
+        lo = np.moveaxis(lo, k, 0)
+        hi = np.moveaxis(hi, k, 0)
+        if kind == 'copy':
+            nlo, nhi = lo[j], hi[j]
+        elif kind == 'lerp':
+            den = np.int64(d[k])
+            r = rem.reshape((-1,) + (1,) * (lo.ndim - 1))
+            a = lo[j] * (den - r) + lo[jn] * r
+            b = hi[j] * (den - r) + hi[jn] * r
+            ii = np.arange(len(j), dtype=np.int64).reshape(r.shape)
+            # copies: output pixel 0 and everything strictly beyond the last input pixel
+            exact = (ii == 0) | (ii * np.int64(lo.shape[0]) > np.int64(lo.shape[0] - 1) * den)
+            nlo = np.where(exact, lo[j], -((-a) // den) - 1)
+            nhi = np.where(exact, hi[j], b // den + 1)
+        else:
+            f = int(jn[0] - j[0])
+            a = lo.reshape((len(j), f) + lo.shape[1:]).sum(axis=1)
+            b = hi.reshape((len(j), f) + hi.shape[1:]).sum(axis=1)
+            nlo = -((-a) // f) - 1
+            nhi = b // f + 1
+        lo = np.moveaxis(nlo, 0, k)
+        hi = np.moveaxis(nhi, 0, k)
+    return lo, hi
+
+
+def smooth_ref_fast(x, w, edge_truncate=False):
+    """(value, touched) for a long float array: long-double window sums over a strided window view"""
+    from numpy.lib.stride_tricks import sliding_window_view
+    a = np.asarray(x, dtype=np.longdouble)
+    n = a.size
+    W = odd_width(w)
+    h = W // 2
+    val = a.copy()
+    touched = np.zeros(n, dtype=bool)
+    if W < 3:
+        return val, touched
+    if edge_truncate:
+        p = np.concatenate([np.full(h, a[0]), a, np.full(h, a[-1])])
+        val = sliding_window_view(p, W).sum(axis=1) / np.longdouble(W)
+        touched[:] = True
+    elif n >= W:
+        val[h:n - h] = sliding_window_view(a, W).sum(axis=1) / np.longdouble(W)
+        touched[h:n - h] = True
+    return val, touched
+
+
+def running_median_1d_fast(x, w, chunk=4096):
+    from numpy.lib.stride_tricks import sliding_window_view
+    a = np.asarray(x, dtype=float)
+    n = a.size
+    h = w // 2
+    out = a.copy()
+    inner = np.zeros(n, dtype=bool)
+    if n >= w:
+        v = sliding_window_view(a, w)
+        for c in range(0, v.shape[0], chunk):
+            out[h + c:h + c + min(chunk, v.shape[0] - c)] = np.sort(v[c:c + chunk], axis=1)[:, h]
+        inner[h:n - h] = True
+    return out, inner
